@@ -125,6 +125,43 @@ def canon(e):
     return x
 
 
+def _agg_eq_under(facts, a, c, hyp):
+    """Truth of `a == c` where one side is a constant struct literal and the hypothesis speaks about the
+    fields of the other: True when every field is known equal, False when one is known different."""
+    def lit(e):
+        if e[0] == "named":
+            e = e[2]
+        if e[0] == "agg" and e[1] not in ("tuple", "array", "closure") and e[3] and all(_as_value(canon(x)) is not None for x in e[3]):
+            return e
+        return None
+    la, lc = lit(a), lit(c)
+    if (la is None) == (lc is None):
+        return None
+    k, x = (la, c) if la is not None else (lc, a)
+    try:
+        names = facts.struct_fields(k[1])
+    except Exception:
+        names = None
+    if not names or len(names) != len(k[3]):
+        names = [str(i) for i in range(len(k[3]))]
+    all_eq = True
+    for nm, fv in zip(names, k[3]):
+        want = _as_value(canon(fv))
+        h = hyp.get(canon(("field", x, nm)))
+        if h is None:
+            all_eq = False
+            continue
+        rel, v = h
+        if rel == "eq":
+            if v != want:
+                return False
+        else:
+            if v == want or (isinstance(v, (tuple, set, frozenset)) and want in v):
+                return False
+            all_eq = False
+    return True if all_eq else None
+
+
 def refuted_edges(body, ex, hyp, variants=None):
     """CFG edges that contradict a hypothesis.  hyp: {expr: ('eq', v) | ('ne', v)} with v an int or
     an enum variant name; variants: {expr: {discr: name}} for enum-typed hypothesis expressions.
@@ -173,6 +210,24 @@ def refuted_edges(body, ex, hyp, variants=None):
             a, c = canon(d[2]), canon(d[3])
             x, k = (a, _as_value(c)) if a in hyp else ((c, _as_value(a)) if c in hyp else (None, None))
             if x is None or k is None:
+                # whole-value comparison with a constant aggregate (`square == A1_CORNER` for a tuple struct):
+                # the conjunction of its field comparisons, decided when the hypothesis fixes the fields
+                truth = _agg_eq_under(body.facts, a, c, hyp)
+                if truth is None:
+                    continue
+                if d[1] == "Ne":
+                    truth = not truth
+                for tg, vals, oth in edges:
+                    edge_truth = None
+                    if vals == [0] and not oth:
+                        edge_truth = False
+                    elif vals == [1] and not oth:
+                        edge_truth = True
+                    elif oth:
+                        listed = [v2 for v2, _ in t["cases"]]
+                        edge_truth = True if listed == [0] else (False if listed == [1] else None)
+                    if edge_truth is not None and edge_truth != truth:
+                        out.add((s, tg))
                 continue
             rel, v = hyp[x]
             if rel == "eq":
